@@ -451,6 +451,21 @@ func Classify(m string) string {
 	return "unclassified"
 }
 
+// canonProblems replaces the random names of cross-device temporaries in
+// problem paths by their canonical names (a temporary that could not be
+// removed can show up later as unknown content).
+func canonProblems(ps []*core.Problem, c *Canon) []*core.Problem {
+	out := make([]*core.Problem, len(ps))
+	for i, p := range ps {
+		parts := strings.Split(p.Path, "/")
+		for j, n := range parts {
+			parts[j] = c.TmpName(n)
+		}
+		out[i] = &core.Problem{Path: strings.Join(parts, "/"), Error: p.Error}
+	}
+	return out
+}
+
 // EncProblems renders problems by path and class, sorted.
 func EncProblems(ps []*core.Problem) string {
 	if len(ps) == 0 {
@@ -675,7 +690,7 @@ func Run(c *Case) (*Outcome, error) {
 	}
 	var silent []string
 	for _, p := range o.Problems {
-		n := Leaf(p.Path)
+		n := c.Canon.TmpName(Leaf(p.Path))
 		if p.Path != "" && !seen[n] {
 			seen[n] = true
 			silent = append(silent, n)
@@ -735,7 +750,7 @@ func Run(c *Case) (*Outcome, error) {
 	if len(remaining) > 0 {
 		rem = strings.Join(remaining, ",")
 	}
-	o.Impl = "res=" + resField + " prob=" + EncProblems(o.Problems) + " miss=" + miss + " fs=" + Enc(o.F2) +
+	o.Impl = "res=" + resField + " prob=" + EncProblems(canonProblems(o.Problems, c.Canon)) + " miss=" + miss + " fs=" + Enc(o.F2) +
 		" scan=" + scanField + " staged=" + rem
 	return o, nil
 }
